@@ -57,7 +57,7 @@ def _cl(x):
 class FnContract:
     def __init__(self, file, path, requires=(), ensures=(), decreases=None, loops=None,
                  closures=None, prologue=None, attrs=(), tags=None, ret='ret', drop=False,
-                 rename=None, body_proofs=None, no_ret=False, via=None, epilogue=None, outline=None):
+                 rename=None, body_proofs=None, no_ret=False, via=None, epilogue=None, outline=None, lift=None):
         self.file = file
         self.path = path
         self.requires = [_cl(c) for c in requires]
@@ -80,6 +80,9 @@ class FnContract:
         # R14 outline: list of dict(rx=regex on the body text, name=helper name, sig='(params) -> Ret' (may start with <generics>),
         #   call=replacement expression, ensures=[clause text], why=reason)
         self.outline = outline or []
+        # R15 lift: list of dict(closure=ordinal, name=, sig='(params) -> (ret: T)', replace='expression left at the site',
+        #   requires=[..], ensures=[..], outline=[R14 specs applied inside the lifted body], attrs=[..])
+        self.lift = lift or []
         self.epilogue = epilogue   # ghost text inserted before the closing brace of a body that ends in a statement
         self.used = False
 
@@ -108,6 +111,7 @@ class UnitSpec:
         self.hoist_nested_consts = False  # R10: fn-local const items are hoisted in front of their fn
         self.reveal_strlits = False  # auto-insert reveal_strlit("..") for string literals (R8)
         self.scope_listed = False  # True: functions without an entry get #[verifier::external]
+        self.external_impls = set()   # impl names (anchors tool spelling) that are marked #[verifier::external] as a whole; closures of their methods can be lifted (R15)
         self.extra_uses = 'use vstd::prelude::*;\n#[allow(unused_imports)] use crate::prelude::*;\n'
 
     def fn(self, file, path, **kw):
@@ -154,6 +158,18 @@ class Generated:
         self.rewrites[rule] = self.rewrites.get(rule, 0) + n
 
 
+
+def captured_names(table, text):
+    """names of the capture table that occur free in `text`: mentioned, and not bound there by a `let` or as a closure parameter"""
+    out = []
+    for (n, t, a) in table:
+        if not re.search(r'(?<![A-Za-z0-9_.])' + re.escape(n) + r'(?![A-Za-z0-9_])', text):
+            continue
+        if re.search(r'\blet\s+(mut\s+)?(\(?[^=;]*\b)?' + re.escape(n) + r'\b[^=;]*=', text):
+            continue
+        out.append((n, t, a))
+    return out
+
 class Splicer:
     def __init__(self, unit, variant_carve=None, mutate=None):
         """variant_carve: set of finding ids whose clauses are replaced by their carve-out.
@@ -167,6 +183,7 @@ class Splicer:
         self.src = {}
         self.anch = {}
         self.tmpdir = None
+        self.lifts = {}
 
     # ------------------------------------------------------------ source loading
     def module_file(self, parent_file, modname):
@@ -359,6 +376,8 @@ class Splicer:
             pos = e
         if pos < len(data):
             pieces.append(('src', f, pos, len(data)))
+        if getattr(self, 'lifts', {}).get(f):
+            pieces = self.apply_lifts(f, pieces)
         return pieces
 
     def process_fn(self, f, r, data, ins, dele):
@@ -380,6 +399,14 @@ class Splicer:
         info = dict(file=f, path=r['path'], contracted=fc is not None, external_body=False, external=False,
                     tags=sorted(tags), explicit_tags=explicit, line=data[:r['item'][0]].count(b'\n') + 1)
         self.g.functions.append(info)
+        in_ext_impl = any(r['path'].startswith(x + '::') for x in u.external_impls)
+        if in_ext_impl:
+            info['external'] = True
+            if fc is not None:
+                self.process_lifts(f, r, data, ins, dele, fc, fnkey, tags)
+            return
+        if fc is not None and fc.lift:
+            self.process_lifts(f, r, data, ins, dele, fc, fnkey, tags)
         if fc is None:
             if u.scope_listed:
                 ins(r['item'][0], '#[verifier::external]\n', {'rule': 'R9'})
@@ -466,6 +493,103 @@ class Splicer:
                 best = it['span'][0]
         return best
 
+    def process_lifts(self, f, r, data, ins, dele, fc, fnkey, tags):
+        """R15: the body of a closure literal is MOVED into a new free function (parameters = the closure's parameters plus,
+        explicitly, what it captured); the site keeps `replace` (the function's name, or a closure that calls it).  The moved
+        bytes stay 'src' pieces, so diagnostics map back to the repository lines and the round-trip audit still tiles the file."""
+        u = self.u
+        for L in fc.lift:
+            k = L['closure']
+            if k >= len(r['closures']):
+                self.lose('%s has no closure #%d to lift' % (fnkey, k), tags)
+                continue
+            cl = r['closures'][k]
+            lid = '%s#lift%d' % (fnkey, k)
+            if L.get('captures'):
+                # parameters for what the closure captures: those names of the table that occur in its body (mechanical)
+                btxt0 = data[cl['body'][0]:cl['body'][1]].decode()
+                used = captured_names(L['captures'], btxt0)
+                L = dict(L)
+                L['sig'] = L['sig'].replace('@CAPTURES@', ''.join('%s: %s, ' % (n, t) for (n, t, a) in used))
+                L['replace'] = L['replace'].replace('@CAPTURES@', ''.join('%s, ' % a for (n, t, a) in used))
+            ins(cl['span'][0], '', {'lift_open': lid})
+            ins(cl['body'][0], '', {'lift_body_open': lid})
+            # edits inside the moved body: the ordinary body rewriting (R4 loops, R5 macros, R8 hints), restricted to the closure body
+            inside = lambda sp: cl['body'][0] <= sp[0] < cl['body'][1]
+            r2 = dict(r)
+            r2['body'] = cl['body']
+            r2['loops'] = [lp for lp in r['loops'] if inside(lp['span'])]
+            r2['closures'] = []
+            r2['arms'] = [a for a in r['arms'] if inside(a['pat'])]
+            r2['macros'] = [m for m in r['macros'] if inside(m['span'])]
+            r2['and_thens'] = [a for a in r.get('and_thens', []) if inside(a['call'])]
+            r2['strlits'] = [l for l in r.get('strlits', []) if inside(l['span'])]
+            r2['path'] = r['path'] + '#lift%d' % k
+            fc2 = FnContract(f, r2['path'], loops=L.get('loops'), body_proofs=[tuple(x) for x in L.get('body_proofs', [])], tags=tags, outline=L.get('header_outline'))
+            self.rewrite_body(f, r2, data, ins, dele, fc2)
+            btxt = data[cl['body'][0]:cl['body'][1]].decode()
+            for oi, o in enumerate(L.get('outline', [])):
+                ms = list(re.finditer(o['rx'], btxt, re.S))
+                if len(ms) != 1:
+                    self.lose('outlined expression %r in %s (%d matches)' % (o['rx'], lid, len(ms)), tags)
+                    continue
+                mm = ms[0]
+                s0 = cl['body'][0] + len(btxt[:mm.start()].encode())
+                e0 = cl['body'][0] + len(btxt[:mm.end()].encode())
+                if o.get('captures'):
+                    used = captured_names(o['captures'], mm.group(0))
+                    o = dict(o)
+                    o['sig'] = o['sig'].replace('@CAPTURES@', ''.join('%s: %s, ' % (n, t) for (n, t, a) in used))
+                    o['call'] = o['call'].replace('@CAPTURES@', ''.join('%s, ' % a for (n, t, a) in used))
+                    names = set(n for (n, t, a) in used)
+                    o['requires'] = [c for c in o.get('requires', []) if not getattr(c, 'needs', None) or set(c.needs) <= names]
+                # R14 as a move of pieces (so that a closure lifted out of the outlined expression is already replaced inside it)
+                oid = '%s#outline%d' % (lid, oi)
+                ins(s0, '', {'lift_open': oid})
+                ins(s0, '', {'lift_body_open': oid})
+                self.lifts.setdefault(f, []).append((oid, dict(o, kind='outline'), {'span': (s0, e0), 'body_is_block': False}, lid, tags))
+                ins(e0, '', {'lift_body_close': oid})
+                ins(e0, '', {'lift_close': oid})
+            ins(cl['body'][1], '', {'lift_body_close': lid})
+            ins(cl['span'][1], '', {'lift_close': lid})
+            self.lifts.setdefault(f, []).append((lid, L, cl, fnkey, tags))
+            self.g.functions.append(dict(file=f, path=r['path'] + '#lift%d' % k, contracted=True, external_body=False, external=False,
+                                         tags=sorted(tags), explicit_tags=False, line=data[:cl['span'][0]].count(b'\n') + 1))
+
+    def apply_lifts(self, f, pieces):
+        indent = '        '
+        tail = []
+        for (lid, L, cl, fnkey, tags) in sorted(self.lifts.get(f, []), key=lambda x: -x[2]['span'][0]):
+            def find(key):
+                for i, p in enumerate(pieces):
+                    if p[0] == 'ins' and p[2] and p[2].get(key) == lid:
+                        return i
+                raise ExtractError('R15: lost mark %s of %s' % (key, lid))
+            io, ibo, ibc, ic = find('lift_open'), find('lift_body_open'), find('lift_body_close'), find('lift_close')
+            if L.get('kind') == 'outline':
+                body = pieces[ibo + 1:ibc]
+                ens = (' ensures ' + ', '.join(L['ensures'])) if L.get('ensures') else ''
+                req = self.fmt_clauses('requires', [_cl(c) for c in L.get('requires', [])], 'requires', lid, f, tags, indent) if L.get('requires') else ''
+                head = '\n#[verifier::external_body] /* R14: outlined from %s (%s) */\nfn %s%s\n%s%s\n{ %s' % (fnkey, L.get('why', 'not encodable by Verus'), L['name'], L['sig'], req, ens, L.get('bind', ''))
+                tail += [('ins', head, {'rule': 'R14'})] + body + [('ins', ' }\n', {'rule': 'R14'})]
+                pieces = pieces[:io] + [('ins', L['call'], {'rule': 'R14'})] + pieces[ic + 1:]
+                self.g.count('R14')
+                self.g.dropped.append('%s: an expression of %s outlined into external_body helper %s (R14)' % (f, fnkey, L['name']))
+                continue
+            header = [('del', p[1], p[2], p[3], 'R15') if p[0] == 'src' else p for p in pieces[io + 1:ibo]]
+            body = pieces[ibo + 1:ibc]
+            spec = self.fmt_clauses('requires', [_cl(c) for c in L.get('requires', [])], 'requires', lid, f, tags, indent)
+            spec += self.fmt_clauses('ensures', [_cl(c) for c in L.get('ensures', [])], 'ensures', lid, f, tags, indent)
+            attrs = ''.join('#[verifier::%s] ' % a for a in L.get('attrs', []))
+            head = '\n/* R15: body of closure #%d of %s, moved here */\n%sfn %s%s\n%s' % (L['closure'], fnkey, attrs, L['name'], L['sig'], spec)
+            if not cl['body_is_block']:
+                body = [('ins', '{ ', {'rule': 'R15'})] + body + [('ins', ' }', {'rule': 'R15'})]
+            tail += [('ins', '', {'fn_start': lid}), ('ins', head, {'contract': lid})] + body + [('ins', '\n', {'fn_end': lid})]
+            pieces = pieces[:io] + header + [('ins', L['replace'], {'rule': 'R15'})] + pieces[ic + 1:]
+            self.g.count('R15')
+            self.g.dropped.append('%s: closure #%d of %s: body moved into the verified function %s (R15); the site keeps `%s`' % (f, L['closure'], fnkey, L['name'], L['replace']))
+        return pieces + tail
+
     def fn_range_marks(self, f, r, ins, fnkey):
         # zero-width marks used to compute the generated range of a function
         ins(r['item'][0], '', {'fn_start': fnkey})
@@ -476,6 +600,8 @@ class Splicer:
         body = src_text
         for (a, b) in o.get('subst', []):
             body = body.replace(a, b)   # e.g. `self` -> the helper's parameter name
+        if o.get('wrap'):
+            body = o['wrap'][0] + body + o['wrap'][1]   # e.g. the IntoIterator::into_iter(..) call that `for` makes implicitly
         helper = '\n#[verifier::external_body] /* R14: outlined from %s (%s) */\nfn %s%s%s\n{ %s%s }\n' % (fnkey, o.get('why', 'not encodable by Verus'), o['name'], o['sig'], ens, o.get('bind', ''), body)
         self.u.appendix[f] = self.u.appendix.get(f, '') + helper
         self.g.count('R14')
